@@ -250,22 +250,25 @@ package gen
 //@ ghost field stringStats.has bool
 //@ ghost field stringOptionalStats.has bool
 
+// the accumulator marks "no value yet" with a reserved string
+//@ pred okStr(s) := s != nil && (!s.has ==> s.min == "__#NIL#__" && s.max == "__#NIL#__")
 //@ func newStringStats
 //@   modifies nothing
-//@   ensures[C12] res != nil && freshsince(res) && !res.has
+//@   ensures[C12] okStr(res) && freshsince(res) && !res.has
 //@ func (*stringStats).add
-//@   requires s != nil
+//@   requires okStr(s)
 //@   modifies s
+//@   ensures[C12] okStr(s)
 //@   ghost-entry s.has := true
 //@   ensures[C12] s.min <= val && val <= s.max
 //@   ensures[C12] old(s.has) ==> s.min <= old(s.min) && s.max >= old(s.max)
 //@ func (*stringStats).Min
-//@   requires s != nil
+//@   requires okStr(s)
 //@   modifies nothing
 //@   ensures[C12] !s.has ==> ref(res) == 0
 //@   ensures[C12] s.has ==> ref(res) != 0 && #res == #s.min && HA(res) == bytesOf(s.min) && off(res) == 0
 //@ func (*stringStats).Max
-//@   requires s != nil
+//@   requires okStr(s)
 //@   modifies nothing
 //@   ensures[C12] !s.has ==> ref(res) == 0
 //@   ensures[C12] s.has ==> ref(res) != 0 && #res == #s.max && HA(res) == bytesOf(s.max) && off(res) == 0
@@ -278,12 +281,12 @@ package gen
 
 //@ func newStringOptionalStats
 //@   modifies nothing
-//@   ensures[C12] res != nil && freshsince(res) && !res.has && res.nils == 0 && res.maxDef == d
+//@   ensures[C12] okStr(res) && freshsince(res) && !res.has && res.nils == 0 && res.maxDef == d
 //@ func (*stringOptionalStats).add
-//@   requires s != nil && #vals >= #defs - cntLess(defs, #defs, s.maxDef)
+//@   requires okStr(s) && #vals >= #defs - cntLess(defs, #defs, s.maxDef)
 //@   modifies s
 //@   ghost-entry s.has := s.has || #defs - cntLess(defs, #defs, s.maxDef) > 0
-//@   ensures[C12] s.maxDef == old(s.maxDef)
+//@   ensures[C12] okStr(s) && s.maxDef == old(s.maxDef)
 //@   ensures[C12] s.nils == old(s.nils) + cntLess(defs, #defs, s.maxDef)
 //@   ensures[C12] forall j in 0..#defs - cntLess(defs, #defs, s.maxDef): s.min <= vals[j] && vals[j] <= s.max
 //@   ensures[C12] old(s.has) ==> s.min <= old(s.min) && s.max >= old(s.max)
@@ -293,13 +296,14 @@ package gen
 //@   invariant[C12] i == rangeindex + 1 - cntLess(defs, rangeindex + 1, s.maxDef)
 //@   invariant[C12] forall j in 0..i: s.min <= vals[j] && vals[j] <= s.max
 //@   invariant[C12] old(s.has) ==> s.min <= old(s.min) && s.max >= old(s.max)
+//@   invariant[C12] s != nil && (!old(s.has) && i == 0 ==> s.min == "__#NIL#__" && s.max == "__#NIL#__")
 //@ func (*stringOptionalStats).Min
-//@   requires s != nil
+//@   requires okStr(s)
 //@   modifies nothing
 //@   ensures[C12] !s.has ==> ref(res) == 0
 //@   ensures[C12] s.has ==> ref(res) != 0 && #res == #s.min && HA(res) == bytesOf(s.min) && off(res) == 0
 //@ func (*stringOptionalStats).Max
-//@   requires s != nil
+//@   requires okStr(s)
 //@   modifies nothing
 //@   ensures[C12] !s.has ==> ref(res) == 0
 //@   ensures[C12] s.has ==> ref(res) != 0 && #res == #s.max && HA(res) == bytesOf(s.max) && off(res) == 0
